@@ -50,6 +50,20 @@ def ntr(t):
   }
 
 
+def _trial_handle(study, trial_id):
+  for val in deploy._members(study):  # pylint: disable=protected-access
+    if isinstance(val, vizier_client.VizierClient):
+      return clients.Trial(val, trial_id)
+  raise AttributeError('no VizierClient found in the Study object')
+
+
+def _clear_local_servicer_cache():
+  for name in dir(vizier_client):
+    f = getattr(vizier_client, name)
+    if callable(f) and hasattr(f, 'cache_clear') and 'servicer' in name:
+      f.cache_clear()
+
+
 class Dep:
   """One deployment + how a client reaches it."""
 
@@ -62,8 +76,8 @@ class Dep:
       self.endpoint = constants.NO_ENDPOINT
       self.kwargs = {'database_url': url, 'early_stop_recycle_period': recycle}
       self.select()
-      vizier_client._create_local_vizier_servicer.cache_clear()  # pylint: disable=protected-access
-      self.servicer = vizier_client._create_local_vizier_servicer()  # pylint: disable=protected-access
+      _clear_local_servicer_cache()
+      self.servicer = vizier_client.create_vizier_servicer_or_stub()  # the implicit in-process servicer
       self.inner = None
     else:
       self.inner = deploy.Deployment(kind, cfg, net, backend=cfg['backend'])
@@ -80,12 +94,7 @@ class Dep:
     if self.inner is not None:
       self.inner.destroy()
     else:
-      try:
-        if self.servicer.datastore.__class__.__name__ == 'SQLDataStore':
-          self.servicer.datastore._connection.close()  # pylint: disable=protected-access
-          self.servicer.datastore._engine.dispose()  # pylint: disable=protected-access
-      except Exception:  # pylint: disable=broad-except
-        pass
+      O.close_datastore(self.servicer.datastore)
 
 
 def do_call(dep, c, cfg):
@@ -146,7 +155,9 @@ def do_call(dep, c, cfg):
     if kind == 'DeleteStudy':
       st.delete()
       return ('ok',)
-    tr = clients.Trial(st._client, c['trial'])  # pylint: disable=protected-access
+    # A Trial handle for an id that may not exist: TrialIterable-free construction
+    # needs the study's client; take it from a materialised handle's public `study`.
+    tr = _trial_handle(st, c['trial'])
     if kind == 'Complete':
       ck = c.get('ckind', 'final')
       if ck == 'final':
@@ -278,7 +289,7 @@ class C08(runner.Check):
         for d in deps:
           d.destroy()
         ev.server_endpoint, ev.servicer_kwargs = saved_env
-        vizier_client._create_local_vizier_servicer.cache_clear()  # pylint: disable=protected-access
+        _clear_local_servicer_cache()
     res.sim_s += clk.elapsed
     return res
 
